@@ -155,7 +155,8 @@ CONSTANTS Atoms,        \* factor atoms of the abstract universe (4)
           Atoms3,       \* the atoms used by triples (subset of Atoms)
           PB2, PB3,     \* exponent bound b (range -b..b) of power vectors for pairs / triples
           EB1, EB2, EB3,\* exponent bound of factors for single units / pairs / triples
-          Offs          \* offsets, NoOff included
+          Offs,         \* offsets, NoOff included
+          EFull         \* BOOLEAN: the larger leaf alphabet for expression trees
 VARIABLES stage, scen, out
 vars == <<stage, scen, out>>
 PR2 == (-PB2)..PB2
@@ -175,8 +176,8 @@ P2 == [j \in 1..NDim |-> IF j = 1 THEN 1 ELSE IF j = 2 THEN -2 ELSE 0]
 
 \* expression trees over the leaf alphabet of the abstract table
 Lf(n) == [op |-> "u", p |-> "", name |-> n]
-LeafAlphabet == {Lf("x"), Lf("y"), Lf("z"), [op |-> "u", p |-> "k", name |-> "x"],
-                 [op |-> "u", p |-> "k", name |-> "z"], [op |-> "n", p |-> "", name |-> "two"], OneLeaf}
+LeafAlphabet == {Lf("x"), Lf("y"), Lf("z"), [op |-> "u", p |-> "k", name |-> "x"], [op |-> "n", p |-> "", name |-> "two"]}
+                   \cup (IF EFull THEN {[op |-> "u", p |-> "k", name |-> "z"], OneLeaf} ELSE {})
 PowExps == {-2, -1, 0, 2, 3}
 Grow(S) == S \cup {[op |-> o, l |-> a, r |-> b] : o \in {"mul", "div"}, a \in S, b \in S}
              \cup {[op |-> "pow", l |-> a, n |-> k] : a \in S, k \in PowExps}
@@ -186,6 +187,13 @@ Tables == {[x |-> U(P1, FMul(FAtom("f1"), FInv(FAtom("f2"))), NoOff),
             y |-> U(P2, FMul(FPow(FAtom("f2"), 2), FAtom("f3")), NoOff),
             z |-> U(PScale(P1, 1), FAtom("f4"), zo)] : zo \in {NoOff, "a"}}
 
+\* Facets of the enumeration (the laws separate into a dimension part and a factor/offset part, so the product
+\* universe is covered facet by facet instead of as one product that TLC could not enumerate):
+\*   P2 / P3  pairs / triples of power vectors over -PB..PB (compatibility is an equivalence, decides conversion)
+\*   F1       every single unit: 2 dimensions x all factors over Atoms with exponents -EB1..EB1 x Offs
+\*   F2 / F3  pairs / triples of (factor, offset) over Atoms2 / Atoms3 (round trip, transitivity, Mul/Div laws, refusal)
+\*   E        every expression tree of depth <= 2 over the leaf alphabet, on generic leaves (distinct atoms), with and
+\*            without an offset leaf (distribution, refusal, simplify)
 Init == /\ stage = 0
         /\ out = 0
         /\ \/ \E p \in Pows(PR2) : scen = [facet |-> "P2", A |-> U(p, FOne, NoOff)]
@@ -198,8 +206,7 @@ Init == /\ stage = 0
 Choose ==
     /\ stage = 0 /\ stage' = 1 /\ out' = 1
     /\ CASE scen.facet = "P2" ->
-              \E p \in Pows(PR2), o \in Offs :
-                 scen' = scen @@ [B |-> U(p, FAtom(AnAtom), o)]
+              \E p \in Pows(PR2) : scen' = scen @@ [B |-> U(p, FAtom(AnAtom), NoOff)]
          [] scen.facet = "P3" ->
               \E p \in Pows(PR3), q \in Pows(PR3) :
                  scen' = scen @@ [B |-> U(p, FAtom(AnAtom), NoOff), C |-> U(q, FDiv(FAtom(OtherAtom), FAtom(AnAtom)), NoOff)]
